@@ -51,6 +51,7 @@ type Invocation struct {
 	Step       int
 	T          time.Duration
 	EndStep    int
+	EndT       time.Duration // attest: when the attestation process returned
 	Committees map[int]int // validator -> committee index (attest)
 }
 
@@ -238,7 +239,7 @@ func (a *recAttester) Attest(ctx context.Context, duty *attester.Duty) ([]*phase
 	a.r.addInv(inv)
 	if a.inner != nil {
 		res, err := a.inner.Attest(ctx, duty)
-		inv.EndStep = simrt.Step()
+		inv.EndStep, inv.EndT = simrt.Step(), simrt.Now()
 		return res, err
 	}
 	d := 300 * time.Millisecond
@@ -246,7 +247,7 @@ func (a *recAttester) Attest(ctx context.Context, duty *attester.Duty) ([]*phase
 		d = a.r.Plan.AttestTakes // slow node, slow signer
 	}
 	simrt.Sleep(ctx, d, "rec/attest")
-	inv.EndStep = simrt.Step()
+	inv.EndStep, inv.EndT = simrt.Step(), simrt.Now()
 	return nil, nil
 }
 
